@@ -31,4 +31,18 @@ theorem json_models_keep_latest_check : NR.Facts.factorySetsTriangleInequality =
 /-- No-mix turns a violation into an engine error through its stop-data updater. -/
 theorem nomix_has_updater : (row "noMixConstraintImpl").map (fun r => r.getD 4 "") = some "yes" := by decide
 
+/-- The per-resource capacity constraints are created while ranging over a map (factory/constraint_capacity.go), so the
+order in which they are asked differs from model to model; the search passes the hint of the FIRST violated constraint
+on (and draws from the random source or not accordingly). That is harmless as long as every `Maximum` answers a
+violation of one cost class with the same hint: "skip the vehicle" in the position-independent regimes (all values
+negative; a constant per-stop value above the limit), "no hint" wherever it walks the route. The returns of
+`maximumImpl.EstimateIsViolated`, in source order — a skip-vehicle answer added to the walking regime (the seeded change
+C12-maximum-peak-hint) makes the result depend on map order. -/
+theorem maximum_hints_are_uniform_per_regime :
+    NR.Facts.estimateHints.find? (fun r => r.head? = some "maximumImpl") = some
+      ["maximumImpl", "false/constNoPositionsHint", "true/constSkipVehiclePositionsHint", "true/constSkipVehiclePositionsHint",
+       "false/constNoPositionsHint", "true/constSkipVehiclePositionsHint", "false/constNoPositionsHint",
+       "true/constNoPositionsHint", "violated/constNoPositionsHint", "true/constNoPositionsHint", "false/constNoPositionsHint"] := by
+  decide
+
 end NR.FactThms.CheckFacts
